@@ -292,10 +292,10 @@ class TorState(object):
             kw['dirport'],
         )
         router.flags = kw.get('flags', [])
-        if 'bandwidth' in kw:
-            router.bandwidth = kw['bandwidth']
-        if 'ip_v6' in kw:
-            router.ip_v6.extend(kw['ip_v6'])
+        # Router objects are re-used across consensus documents: what
+        # the current document doesn't mention must not survive
+        router.bandwidth = kw.get('bandwidth', 0)
+        router.ip_v6 = list(kw.get('ip_v6', []))
 
         if 'guard' in router.flags:
             self.guards[router.id_hex] = router
